@@ -136,6 +136,10 @@ class Model:
                 tree = ast.parse(src, filename=path)
             except SyntaxError as exc:  # pragma: no cover
                 raise AnalysisError(f"cannot parse {path}: {exc}") from exc
+            if os.environ.get("DROPSTAT_RAW_AST") != "1":
+                from .normalize import inline_module, normalize_tree
+
+                tree = inline_module(normalize_tree(tree))
             name = path[:-3].replace("/", ".")
             if name.endswith(".__init__"):
                 name = name[: -len(".__init__")]
